@@ -1,0 +1,29 @@
+//go:build verif
+// +build verif
+
+package linker
+
+import (
+	"github.com/evanw/esbuild/internal/bundler"
+	"github.com/evanw/esbuild/internal/sourcemap"
+)
+
+// Thin wrapper (no logic) used by the verification harness in /verif (C07):
+// copies plain data into the unexported compileResultForSourceMap and forwards
+// to generateSourceMapForChunk on the synthetic linker context of
+// VerifNewLinker (canHaveShifts = true, so the mappings come back as a piece).
+
+type VerifSourceMapResult struct {
+	Chunk       sourcemap.Chunk
+	Offset      sourcemap.LineColumnOffset
+	SourceIndex uint32
+	IsNullEntry bool
+}
+
+func (v *VerifLinker) GenerateSourceMapForChunk(results []VerifSourceMapResult, chunkAbsDir string, dataForSourceMaps []bundler.DataForSourceMap) sourcemap.SourceMapPieces {
+	rs := make([]compileResultForSourceMap, len(results))
+	for i, r := range results {
+		rs[i] = compileResultForSourceMap{sourceMapChunk: r.Chunk, generatedOffset: r.Offset, sourceIndex: r.SourceIndex, isNullEntry: r.IsNullEntry}
+	}
+	return v.c.generateSourceMapForChunk(rs, chunkAbsDir, dataForSourceMaps, true)
+}
